@@ -25,10 +25,80 @@ def pre_build(ctx):
     ok, msg = translate_toggle.regenerate()
     if not ok:
         raise RuntimeError("translator refused the feature-switching sources: %s" % msg)
+    import translate_annotators
+
+    ok, msg = translate_annotators.regenerate()
+    if not ok:
+        raise RuntimeError("translator refused the annotator sources: %s" % msg)
+
+
+def primitive_scenarios(ctx, n):
+    """implementation-only oracle at the level of the PRIMITIVE actions (the edit machine drives user actions
+    only): with a regionprops feature disabled / never enabled, UpdateNodeSeg shrinks a node - partly, and down
+    to nothing (the annotator's missing-label branch) - and is inverted; a disabled key must keep its value (or
+    its absence) on every node"""
+    import networkx as nx
+    import numpy as np
+    from funtracks.actions import UpdateNodeSeg
+    from funtracks.data_model import SolutionTracks
+
+    rng = ctx.rng
+    out, stats = [], {"primitive_scenarios": 0, "primitive_full_erase": 0}
+    RP = ["pos", "area", "ellipse_axis_radii", "circularity", "perimeter"]
+    for k in range(n):
+        T, side = rng.randint(2, 4), 6
+        seg = np.zeros((T, side, side), dtype=np.int64)
+        g = nx.DiGraph()
+        nid = 0
+        for t in range(T):
+            for j in range(rng.randint(1, 2)):
+                nid += 1
+                r0 = 3 * j
+                seg[t, r0:r0 + rng.randint(1, 2) + 1, 0:rng.randint(2, 5)] = nid
+                g.add_node(nid, time=t)
+        tr = SolutionTracks(g, segmentation=seg, ndim=3, scale=rng.choice([None, [1.0, 1.0, 1.0], [1.0, 2.0, 0.25]]))
+        extra = rng.sample(["circularity", "perimeter", "ellipse_axis_radii"], rng.randint(0, 2)) if tr.scale is None or tr.scale[1] == tr.scale[2] else []
+        if extra:
+            tr.enable_features(extra)
+        off = rng.sample(["area"] + extra, rng.randint(1, 1 + len(extra)))
+        tr.disable_features(off)
+        avail = {kk for ann in tr.annotators for kk in ann.all_features}
+        watched = [kk for kk in RP if kk in avail and kk not in {kk for ann in tr.annotators for kk, (_, on) in ann.all_features.items() if on}]
+        node = rng.choice(list(tr.graph.nodes))
+        px = tr.get_pixels(node)
+        full = rng.random() < 0.5
+        m = len(px[0]) if full else max(1, len(px[0]) // 2)
+        part = tuple(a[:m] for a in px)
+        stats["primitive_scenarios"] += 1
+        stats["primitive_full_erase"] += int(full)
+        snap = lambda: {(int(n_), kk): repr(tr.graph.nodes[n_].get(kk, "<absent>")) for n_ in tr.graph.nodes for kk in watched}
+        before = snap()
+        desc = {"scenario": k, "node": int(node), "erased_pixels": m, "of": len(px[0]), "disabled": off, "watched": watched,
+                "seg": [[int(x) for x in fr.reshape(-1)] for fr in seg]}
+        try:
+            act = UpdateNodeSeg(tr, node, part, added=False)
+            mid = snap()
+            act.inverse()
+            after = snap()
+        except Exception as e:  # noqa: BLE001
+            out.append({"what": "primitive UpdateNodeSeg raised %s: %s" % (type(e).__name__, str(e)[:100]), "input": desc, "signature": "C10:primitive-raise"})
+            continue
+        for label, st in (("UpdateNodeSeg(added=False)", mid), ("its inverse", after)):
+            d = {kk: (before[kk], st[kk]) for kk in before if before[kk] != st[kk]}
+            if d:
+                out.append({"what": "%s changed disabled features %s" % (label, {"%d.%s" % kk: v for kk, v in list(d.items())[:3]}),
+                            "input": desc, "signature": "C10:primitive-frozen"})
+                break
+    return out, stats
 
 
 def run(ctx):
-    return G.run_property(ctx, "C10", n_quick=400, n_thorough=5000, seg_p=0.7, toggles=0.22)
+    res = G.run_property(ctx, "C10", n_quick=400, n_thorough=5000, seg_p=0.7, toggles=0.22)
+    viol, stats = primitive_scenarios(ctx, 60 if ctx.quick() else 600)
+    res["violations"] = list(res.get("violations", [])) + viol
+    res.setdefault("stats", {}).update(stats)
+    res["evaluations"] = res.get("evaluations", 0) + stats["primitive_scenarios"]
+    return res
 
 
 def replay(ctx, payload):
